@@ -174,6 +174,12 @@ def main(argv=None):
         print("VIOLATION property=%s replay=%s" % (prop, path))
         print("  " + v.get("msg", "").replace("\n", "\n  ")[:3000])
         rc = 1
+    if new:
+        kinds = {}
+        for v in new:
+            k = str(v.get("sig", {}).get("kind"))
+            kinds[k] = kinds.get(k, 0) + 1
+        print("violations by kind: %s" % canon_json(kinds))
     if len(new) > MAX_REPORT:
         print("... %d further distinct violations not written out" % (len(new) - MAX_REPORT))
     summary = {k: v for k, v in cov.items() if isinstance(v, (int, float, bool, str)) and k != "rule"}
